@@ -103,6 +103,8 @@ func ProfileFor(prop string) *Profile {
 		w["describe"], w["create"], w["drop"], w["clear"], w["idxcreate"], w["idxdrop"] = 1, 0.4, 0.3, 0.3, 0.3, 0.2
 		w["toggle"], w["open"], w["resume"] = 0.9, 0.5, 1.2
 		w["idxtype"], w["bad"], w["batchbad"], w["batchpartial"] = 0.2, 0.4, 0.4, 0.3
+		w["native"] = 0.3
+		p.NativeUpdaters = true
 	case "C18":
 		p.MinClients, p.MaxClients = 2, 2
 		p.MaxTables = 3
